@@ -82,6 +82,8 @@ def run(ctx):
         ctx.guard(c08.keep_only, ctx, lambda: c18.flag(ctx, cfg, fs), lambda o: True, 'E.env-absence')
         # which failed attempt of an adjacent group is reported: the one that got furthest, measured on its own window (shared with C10)
         ctx.guard(c08.keep_only, ctx, lambda: c10.best_effort(ctx, cfg, fs), lambda o: 'consumed-measured' in o.key or 'ties-keep' in o.key, 'T.combine')
+        # the failure of a command that was entered stays final because its depth is kept (State.path is never popped; shared with C08)
+        ctx.guard(c08.keep_only, ctx, lambda: c08.matched(ctx, cfg, fs), lambda o: 'State.path:only-pushed' in o.key, 'K4.discipline')
         ctx.guard(k5, ctx, cfg, fs)
         ctx.guard(retry_looks_at_failure, ctx, cfg, fs)
         import consumers
